@@ -361,6 +361,7 @@ func genC02(ctx *Ctx) []Case {
 	g := &c01Gen{ctx: ctx, huge: uint64(1) << 40}
 	var cases []Case
 	ncli := 0
+	permNext := map[int]int{}
 	build := func(tag string, base c01Case, cli bool) {
 		if cli {
 			ncli++
@@ -423,7 +424,13 @@ func genC02(ctx *Ctx) []Case {
 			// reach the parser unquoted), CRLF line ends, no final line end
 			k.Style = []int{0, c01StyleRaw, c01StyleRaw | c01StyleCRLF, c01StyleCRLF, 0, c01StyleRaw | c01StyleNoFinal}[i]
 			// tables of 3+ blocks: two variants are ingested under a forced worker schedule
-			if nb := (len(base.Rows) + 254) / 255; nb >= 3 && (i == 3 || i == 5) {
+			if nb := (len(base.Rows) + 254) / 255; (nb == 3 || nb == 4) && (i == 1 || i == 3 || i == 5) {
+				// every completion order of 3 / 4 blocks is visited in turn across the cases
+				perms := c01Perms(nb)
+				k.Deps, k.Arrival, k.Workers = c01ForcedOrder(perms[permNext[nb]%len(perms)])
+				permNext[nb]++
+				ctx.Count(fmt.Sprintf("forced_completion_orders_%d_blocks", nb))
+			} else if nb >= 3 && (i == 3 || i == 5) {
 				pattern := 2
 				if i == 5 {
 					pattern = 0
@@ -563,6 +570,18 @@ func genC02(ctx *Ctx) []Case {
 		}
 		build("witness", c01Case{Columns: []string{"a", "b", "c"}, PKNames: []string{"a"}, Rows: rows}, false)
 		build("witness", c01Case{Columns: []string{"a", "b", "c"}, PKNames: nil, Rows: rows[:300]}, false)
+		// enough 3- and 4-block tables for every completion order (6 + 24, three forced variants per table)
+		for w := 0; w < 9; w++ {
+			n := 600 + w
+			if w >= 1 {
+				n = 800 + 20*w
+			}
+			var rs [][]string
+			for i := 0; i < n; i++ {
+				rs = append(rs, []string{fmt.Sprintf("%04d", (i*7)%n), fmt.Sprintf("w%d", i%5)})
+			}
+			build("witness", c01Case{Columns: []string{"a", "b"}, PKNames: []string{"a"}, Rows: rs}, false)
+		}
 		build("witness", c01Case{Columns: []string{"a", "b"}, PKNames: []string{"a"}, Rows: [][]string{{"", "1"}, {"x", "2"}}}, true)
 		build("witness", c01Case{Columns: []string{"id", "name"}, PKNames: []string{"id"}, Rows: [][]string{{"1", "alice"}, {"2", "bob"}, {"3", "carol"}}}, true)
 	}
